@@ -115,6 +115,8 @@ package agent
 //@   guard-call crypt:  "XCryptBytesAES256" argis(0, "DataPayload") && sameslice(arg(1), AesKey) && sameslice(arg(2), AesIv) && len(arg(0)) > 0
 //@   loop "for _, job := range Jobs"
 //@     invariant own: (cap(DataPayload) == 0 || fresh(arrayof(DataPayload))) && (cap(PayloadPackage) == 0 || fresh(arrayof(PayloadPackage)))
+// every task, with or without arguments, carries its three header fields: at least 12 bytes per task
+//@     invariant hdr: len(PayloadPackage) >= 12 * idx__
 //@     invariant apartP: apart(PayloadPackage)
 //@     invariant apartD: apart(DataPayload)
 //@     invariant apartPD: cap(PayloadPackage) == 0 || !samearray(PayloadPackage, DataPayload)
@@ -131,6 +133,9 @@ package agent
 //@   requires nonnil: Parser != nil
 //@   modifies *
 //@   ensures wf: r != nil ==> wfAgent(r)
+// the id inside the encrypted body must repeat the id of the clear header (that is the proof the body
+// decrypted); only a header id of 0 (first contact through a pivot) is exempt
+//@   ensures-local idcheck: r != nil ==> (AgentID == DemonID || AgentID == 0)
 
 //@ func (a *Agent) UpdateLastCallback(Teamserver TeamServer)
 //@   requires wf: a != nil && a.Info != nil && Teamserver != nil
